@@ -14,6 +14,7 @@ EXPL = ("Decides: (1) SA-DATA exhaustively over all 64x64 entries of FNV_TABLE a
 
 def run(ctx):
     cfgs = ["rel", "fnv"] if ctx.tier == "quick" else ["rel", "dbg", "fnv", "unsafe", "nodef"]
+    ctx.progs(cfgs)  # build all configurations in parallel
     for c in cfgs:
         prog = ctx.prog(c)
         ctx.guard("C19", "fnv", lambda: data.fnv_table(ctx, prog))
